@@ -124,6 +124,52 @@ ARGS = {
 }
 
 
+def pattern_zoo():
+    """patterns from the supported grammar (bounded composition) with the listed unsupported constructs embedded"""
+    atoms = ["a", ".", r"\d", r"\w", "[a-c]", "[^a-c]", r"[^\d]", r"[^\w]", r"[\d_x]", r"[^\dx-z]", r"\.", r"\n", "[.]", "[^.]",
+             r"[\n]", "[^\n]", "é", "[^é]", "[ -~]", r"[a\-c]", r"\\", "[]a]", "[^]a]", "_", " "]
+    unsup = [r"\s", r"\S", r"\D", r"\W", "(?=a)", "(?!a)", "(?<=a)", r"(a)\1", "(?>a)", "a*+", "a++", r"[\s]", r"[^\S]", r"[\D]",
+             r"[\W]", "(?P<n>a)(?P=n)"]
+    quants = ["", "*", "+", "?", "{2}", "{2,}", "{1,3}", "{0}", "*?", "+?", "??", "{2,3}?", "{40,}", "{33,}?"]
+    seen = set()
+
+    def emit(p):
+        if p not in seen:
+            seen.add(p)
+            return True
+        return False
+    for a in atoms + unsup:
+        for q in quants:
+            if a in ("a*+", "a++") and q:
+                continue
+            if emit(a + q):
+                yield a + q
+    groups = ["(%s)", "(?:%s)", "(?P<g>%s)"]
+    for a in atoms[:12]:
+        for b in atoms[:8] + unsup[:6]:
+            for form in ("%s%s", "%s|%s", "^%s%s$", r"\A%s%s\Z"):
+                p = form % (a, b)
+                if emit(p):
+                    yield p
+            for g in groups:
+                for q in ("", "+", "{2,}", "*?"):
+                    p = (g % (a + "|" + b)) + q
+                    if emit(p):
+                        yield p
+    for a in atoms[:10]:
+        for u in unsup:
+            for form in ("%s%s", "%s%s" , "(%s|%s)+", "(?:%s(%s))*"):
+                for x, y in ((a, u), (u, a)):
+                    p = form % (x, y)
+                    if emit(p):
+                        yield p
+    for a in ("[a-c]", "[^a-c]", r"\d", "."):
+        for b in (r"[^\w]", "x", r"\w"):
+            for p in ("((%s|%s)+%s){2}" % (a, b, a), "(?:%s{2,}|(%s%s)*?)+" % (a, b, a), "^(%s(?:%s|%s{1,2})){2,}$" % (a, b, a)):
+                if emit(p):
+                    yield p
+
+
 def search(spec):
     oracle = spec["oracle"]
     fn = N.ORACLES[oracle]
@@ -163,6 +209,21 @@ def search(spec):
                            "path": {"k": "nil"}}, meta)
                 if hit:
                     return hit, n
+    if oracle == "C17":
+        # the C17 oracle carries its own zoo of seeded schemas, run in three interpreters with different hash seeds
+        n += 1
+        bad, detail = N.oracle_C17({}, meta)
+        return ((({}, dict(meta), detail), n) if bad else (None, n))
+    if oracle == "C09":
+        for p in pattern_zoo():
+            n += 1
+            try:
+                bad, detail = N.check_pattern(p)
+            except N.Unreachable:
+                continue
+            if bad:
+                return ({"pattern": J(p)}, {}, detail), n
+        return None, n
     if oracle == "C15":
         # pairs of small schemas of one class: == must be symmetric / reflexive, != its negation, and equal
         # schemas must give the same verdicts
